@@ -271,6 +271,19 @@ def near_misses(ctx):
                                         (3, 3), {"_in0": a, "_in1": b, "_in2": c})))
     out.append(("three-operand-product", mk(prim.Product((v("_in0")[v("_0"), v("_1")], v("_in1")[v("_0"), v("_1")],
                                                           2)), (3, 3), {"_in0": a, "_in1": b})))
+    # ONE binding in two operand positions next to a binding that is no operand but supplies the output shape: the
+    # operands broadcast to a SMALLER shape than the index lambda has (counting operands against bindings is fooled)
+    xs, ysh = ph((4,)), ph((3, 4))
+    cb = ph((4,), "bool")
+    x1 = prim.Subscript(v("_in0"), (v("_1"),))
+    for lbl, ex in [("mul", x1 * x1), ("quot", prim.Quotient(x1, x1)), ("sum", x1 + x1), ("cmp", prim.Comparison(x1, "<", x1)),
+                    ("where", prim.If(prim.Subscript(v("_in2"), (v("_1"),)), x1, x1)), ("atan2", v("pytato.c99.atan2")(x1, x1)),
+                    ("sub", prim.Sum((x1, prim.Product((-1, x1)))))]:
+        binds = {"_in0": xs, "_in1": ysh}
+        if lbl == "where":
+            binds["_in2"] = cb
+        out.append((f"one-operand-twice-plus-shape-only-binding:{lbl}", mk(ex, (3, 4), binds,
+                                                                           "bool" if lbl == "cmp" else "float64")))
     # NaN of a type that has no NaN: not a fill / operand value of any NumPy operation (and never a crash)
     out.append(("nan-int32-operand", mk(v("_in0")[v("_0"), v("_1")] + prim.NaN(np.int32), (3, 3), {"_in0": a}, "float64")))
     out.append(("nan-bool-operand", mk(v("_in0")[v("_0"), v("_1")] * prim.NaN(np.bool_), (3, 3), {"_in0": a}, "float64")))
